@@ -322,6 +322,7 @@ _tag_re = re.compile(_tag)
 #
 _quoted = r'"(([^\015\012\\"]|\\["\\])*)"'
 _quoted_re = re.compile(_quoted)
+_quoted_special_re = re.compile(r'\\(["\\])')
 
 # A literal string has a 'literal prefix' which is of the from {\d}?+CRLF.
 # The "+" indicates a non-synchronizing literal
@@ -2078,7 +2079,11 @@ class IMAPClientCommand:
     def _p_string(self) -> str:
         """A string is either a 'quoted string' or a 'literal string'"""
         try:
-            return self._p_re(_quoted_re)[1:-1]
+            # Inside a quoted string `\"` stands for `"` and `\\` for `\`
+            # (rfc3501 `quoted-specials`). The client means the unescaped
+            # text.
+            #
+            return _quoted_special_re.sub(r"\1", self._p_re(_quoted_re)[1:-1])
         except NoMatch:
             pass
 
